@@ -33,11 +33,14 @@ type DialStep struct {
 type DialCase struct {
 	NPeers   int        `json:"n_peers"`
 	Duration int        `json:"blacklist_s"`
+	Origins  []bool     `json:"origins,omitempty"` // which peers the tracker marks as origins
 	Steps    []DialStep `json:"steps"`
 }
 
 func genDial(t *rapid.T) DialCase {
 	c := DialCase{NPeers: rapid.IntRange(1, 4).Draw(t, "npeers"), Duration: rapid.IntRange(5, 20).Draw(t, "dur")}
+	// the tracker marks origins in its hand-out; they are peers like any other for this rule
+	c.Origins = rapid.SliceOfN(rapid.Bool(), c.NPeers, c.NPeers).Draw(t, "origins")
 	n := rapid.IntRange(2, 8).Draw(t, "nsteps")
 	for i := 0; i < n; i++ {
 		if rapid.IntRange(0, 2).Draw(t, "k") == 0 {
@@ -85,7 +88,8 @@ func runDial(c DialCase) pbt.Verdict {
 			return pbt.Verdict{Discard: true, Classes: []string{"no-port"}}
 		}
 		id, _ := core.AddrHashPeerIDFactory.GeneratePeerID("127.0.0.1", l.Addr().(*net.TCPAddr).Port)
-		p := &dialPeer{l: l, info: core.NewPeerInfo(id, "127.0.0.1", l.Addr().(*net.TCPAddr).Port, false, false)}
+		origin := i < len(c.Origins) && c.Origins[i]
+		p := &dialPeer{l: l, info: core.NewPeerInfo(id, "127.0.0.1", l.Addr().(*net.TCPAddr).Port, origin, false)}
 		peers = append(peers, p)
 		go func() {
 			for {
@@ -155,23 +159,42 @@ func runDial(c DialCase) pbt.Verdict {
 			}
 		}
 		h.VH.ApplyAnnounceResult(ih, infos)
-		// wait for the expected dials, then give unexpected ones a chance to show
-		schedh.WaitFor(3*time.Second, func() bool {
-			for i := range want {
-				if peers[i].count() == before[i] {
-					return false
+		// The event has been applied on this goroutine: which peers the scheduler decided to
+		// dial is now recorded in its connection state (a dialled peer is "pending" until the
+		// harness applies the event that ends the dial). Read it without waiting for anything:
+		// reserving a pending slot fails for exactly those peers.
+		decided := map[int]bool{}
+		for _, i := range s.Peers {
+			switch err := h.VH.Conns().AddPending(peers[i].info.PeerID, ih, nil); err {
+			case nil:
+				h.VH.Conns().DeletePending(peers[i].info.PeerID, ih)
+			case connstate.ErrConnAlreadyPending:
+				decided[i] = true
+			default:
+				return pbt.Verdict{Discard: true, Classes: []string{"probe-error:" + err.Error()}}
+			}
+		}
+		dialledNow := func(i int) bool { return decided[i] }
+		countFailed := func() int {
+			k := 0
+			for _, e := range h.VH.Pending() {
+				if e.Kind == "failedOutgoingHandshakeEvent" {
+					k++
 				}
 			}
-			return true
-		})
-		h.Settle()
-		time.Sleep(20 * time.Millisecond)
+			return k
+		}
+		// Every dial ends in an event (the listeners close accepted connections at once). A
+		// machine too busy to get there in 60 s makes the case inconclusive, not a violation.
+		if !schedh.WaitFor(60*time.Second, func() bool { return countFailed() >= len(decided) }) {
+			return pbt.Verdict{Discard: true, Classes: []string{"dials-did-not-finish-in-60s"}}
+		}
 		hist = append(hist, fmt.Sprintf("%d: announce peers %v at +%s (expected dials %v)", si, s.Peers, now.Sub(time.Unix(0, 0).Add(24*time.Hour)).String(), want))
 		for _, i := range s.Peers {
 			if !judged[i] {
 				continue
 			}
-			dialled := peers[i].count() > before[i]
+			dialled := dialledNow(i)
 			if want[i] && !dialled {
 				return pbt.Fail("peer %d is not blacklisted (blacklist expired %s ago or never set) but an announce response listing it did not dial it\n  history:%s", i, now.Sub(until[i]), history())
 			}
@@ -179,22 +202,7 @@ func runDial(c DialCase) pbt.Verdict {
 				return pbt.Fail("peer %d is blacklisted for another %s but an announce response listing it dialled it\n  history:%s", i, until[i].Sub(now), history())
 			}
 		}
-		// every dial fails its handshake: apply the failure events, which blacklist the peers
-		schedh.WaitFor(3*time.Second, func() bool {
-			k := 0
-			for _, e := range h.VH.Pending() {
-				if e.Kind == "failedOutgoingHandshakeEvent" {
-					k++
-				}
-			}
-			dialledUnjudged := 0
-			for _, i := range s.Peers {
-				if !judged[i] && peers[i].count() > before[i] {
-					dialledUnjudged++
-				}
-			}
-			return k >= len(want)+dialledUnjudged
-		})
+		// every dial has failed its handshake by now: apply the failure events, which blacklist the peers
 		for _, e := range h.VH.Pending() {
 			if e.Kind == "failedOutgoingHandshakeEvent" {
 				h.ApplyID(e)
@@ -205,7 +213,7 @@ func runDial(c DialCase) pbt.Verdict {
 		}
 		// a peer listed exactly at its expiry instant is not judged, but whatever happened is tracked
 		for _, i := range s.Peers {
-			if !judged[i] && peers[i].count() > before[i] {
+			if !judged[i] && decided[i] {
 				until[i] = now.Add(dur)
 			}
 		}
@@ -218,4 +226,13 @@ func runDial(c DialCase) pbt.Verdict {
 		cl = append(cl, "redial-after-expiry")
 	}
 	return pbt.Verdict{NonTrivial: skippedBlacklisted, Classes: cl}
+}
+
+// conclusive turns a verdict of a run in which the harness could not get a call into the
+// event loop within a minute (machine too busy) into a discard.
+func conclusive(v pbt.Verdict) pbt.Verdict {
+	if schedh.TakeInconclusive() {
+		return pbt.Verdict{Discard: true, Classes: []string{"call-did-not-reach-the-loop-in-60s"}}
+	}
+	return v
 }
